@@ -808,7 +808,17 @@ func (g *gen) groupTwoCol(n int) {
 		if g.chance(0.3) {
 			w = gap + 2 + g.r.Intn(8)
 		}
-		g.emit("prog", g.editStep(t, o)+";"+fmt.Sprintf("twocol,0,%s,%s,%s,%d,%d,%s,%s", encInt(g.pos(clusterCount(t))), encText(l), encText(r), gap, w, encPct(g.pct()), g.optsArg(o)))
+		edOpts, arg := o, g.optsArg(o)
+		if g.chance(0.4) {
+			var els string
+			edOpts, els, _ = g.opts(mode)
+			arg = encOpts(o)
+			if g.chance(0.5) {
+				l = g.word(mode, 3) + els + l
+				r = r + els + g.word(mode, 3)
+			}
+		}
+		g.emit("prog", g.editStep(t, edOpts)+";"+fmt.Sprintf("twocol,0,%s,%s,%s,%d,%d,%s,%s", encInt(g.pos(clusterCount(t))), encText(l), encText(r), gap, w, encPct(g.pct()), arg))
 	}
 }
 
@@ -832,7 +842,19 @@ func (g *gen) groupDefTable(n int) {
 				defs[j][0] = ""
 			}
 		}
-		g.emit("prog", g.editStep(t, o)+";"+fmt.Sprintf("deftable,0,%s,%s,%d,%s", encInt(g.pos(clusterCount(t))), encDefs(defs), g.width(), g.optsArg(o)))
+		edOpts := o
+		arg := g.optsArg(o)
+		if g.chance(0.4) {
+			// the Editor's own options differ from the call's: only the call's may be used
+			var els string
+			edOpts, els, _ = g.opts(mode)
+			arg = encOpts(o)
+			if nd > 0 && g.chance(0.7) {
+				j := g.r.Intn(nd)
+				defs[j][1] = g.word(mode, 3) + els + g.word(mode, 3) + ls + g.word(mode, 2)
+			}
+		}
+		g.emit("prog", g.editStep(t, edOpts)+";"+fmt.Sprintf("deftable,0,%s,%s,%d,%s", encInt(g.pos(clusterCount(t))), encDefs(defs), g.width(), arg))
 	}
 }
 
@@ -857,7 +879,12 @@ func (g *gen) groupTable(n int) {
 				}
 			}
 		}
-		g.emit("prog", g.editStep(t, o)+";"+fmt.Sprintf("table,0,%s,%s,%d,%s", encInt(g.pos(clusterCount(t))), encTable(data), g.width(), g.optsArg(o)))
+		edOpts, arg := o, g.optsArg(o)
+		if g.chance(0.4) {
+			edOpts, _, _ = g.opts(mode)
+			arg = encOpts(o)
+		}
+		g.emit("prog", g.editStep(t, edOpts)+";"+fmt.Sprintf("table,0,%s,%s,%d,%s", encInt(g.pos(clusterCount(t))), encTable(data), g.width(), arg))
 	}
 }
 
@@ -960,6 +987,12 @@ func (g *gen) groupPool(n int, steps int) {
 				src = len(st) - 1
 			}
 			var s string
+			if k > 2 && g.chance(0.12) {
+				// determinism: the same operation with the same arguments on the same Editor, again
+				// (a memo keyed on too little, or mutated in place, answers differently the second time)
+				st = append(st, st[1+g.r.Intn(len(st)-1)])
+				continue
+			}
 			switch g.r.Intn(17) {
 			case 0:
 				s = fmt.Sprintf("chars,%d,%s,%s", src, encInt(g.pos(8)), encInt(g.pos(8)))
